@@ -10,6 +10,7 @@ import math
 import numpy as np
 
 from .. import bootstrap
+from ..workloads import r6 as W_r6
 from ..scripted_process import ScriptedProcess
 
 ID = "C07"
@@ -19,13 +20,13 @@ RULE = ("case = (N paths with unique scripted terminal values, product in {Forwa
         "component, control-variate price = mean(Y - b*(X - price_X)) with b* the sample regression coefficient, = raw mean when "
         "price_X is the sample mean of X, adjusted variance <= raw variance; non-trivial = N >= 3 paths with non-constant payoff; "
         "distinct = distinct seed")
-ASSUMPTIONS = ["controls whose sample covariance matrix has an entry below 1e-8 in absolute value are not generated (the code's own "
-               "degenerate-control guard, 1e-12, is far below)",
+ASSUMPTIONS = ["controls with a sample variance below 1e-8, or collinear in the sample (condition number of their covariance matrix above 1e10), are "
+               "not judged (the code's own degenerate-control guard, 1e-12 on the variance, is far below); uncorrelated controls are judged",
                "the scripted process stands for any Process; runs with 2..4 worker processes draw the terminal values in the workers and log them "
                "to an O_APPEND file, the multiset of logged values is the reference (which worker simulates which path is not prescribed)"]
 REQUIRED_COUNTERS = ["price_checks", "stddev_checks", "each_path_once_checks", "control_variate_checks", "cv_mean_invariance",
                      "cv_variance_checks", "vector_payoff_cases", "spot_statistics_cases", "control_variates_object_reused",
-                     "concentrated_sample_cases", "worker_process_runs", "worker_runs_with_two_or_more_simulating_processes"]
+                     "concentrated_sample_cases", "symmetric_path_sets", "worker_process_runs", "worker_runs_with_two_or_more_simulating_processes"]
 MIN_NONTRIVIAL = {"quick": 100, "thorough": 1500}
 THOROUGH_ROUNDS = 20      # the thorough tier runs the generators this many times (different seeds)
 
@@ -42,6 +43,11 @@ def gen_cases(tier, seed):
         if i % 12 == 0:
             # samples concentrated around a large value (relative spread 1e-6 .. 1e-8): the error estimate must not lose them to cancellation
             cases[-1]["concentration"] = float(rng.choice([1e-6, 1e-8]))
+    # path sets that are symmetric around a centre (antithetic pairs): a control that is odd around the centre and one that is even are
+    # exactly uncorrelated in the sample; both still enter the regression
+    for i in range(6 if tier == "quick" else 40):
+        cases.append({"seed": int(rng.integers(2**31)), "N": int(rng.choice([6, 10, 40, 128])), "product": ["call", "put", "onthefly"][i % 3], "ncv": 2,
+                      "cv_prices": ["scalar", "vector"][i % 2], "spot_stats": False, "cv_notional": 1.0, "symmetric": True})
     # the paths simulated by a pool of worker processes: path counts that are and are not multiples of the number of workers
     for i in range(8 if tier == "quick" else 24):
         cases.append({"kind": "workers", "seed": int(rng.integers(2**31)), "N": int(rng.choice([3, 5, 7, 16, 17, 33, 64, 101])), "workers": int(rng.choice([2, 3, 4])),
@@ -201,9 +207,18 @@ def run_case(case, R):
     if conc:
         s = float(rng.choice([1e2, 1e4])) * (1.0 + conc * (np.sort(rng.normal(size=N)) + 1e-3 * np.arange(N)))
         R.hit("concentrated_sample_cases")
+    sym = bool(case.get("symmetric"))
+    if sym:
+        centre = float(rng.choice([50.0, 100.0, 128.0]))
+        dev = np.sort(rng.uniform(0.5, 30.0, size=N // 2)) + np.arange(N // 2) * 2.0**-10
+        dev = np.round(dev * 1024.0) / 1024.0                     # dyadic deviations: centre + d and centre - d are exact
+        s = np.concatenate([centre + dev, centre - dev])
+        R.hit("symmetric_path_sets")
     order = rng.permutation(N)
     s = s[order]
     k = float(np.median(s) * rng.uniform(0.9, 1.1))
+    if sym:
+        k = W_r6(centre * rng.uniform(0.85, 1.0))
     ks = [k * 0.8, k, k * 1.25]
     pay, fun = _payoff(case["product"], k, ks)
     dim = 3 if case["product"] == "call-vector" else 1
@@ -217,7 +232,9 @@ def run_case(case, R):
     cv_notional = float(case.get("cv_notional", 1.0))     # controls in small cash units (rate-like payoffs) as well as large ones
     for j in range(case["ncv"]):
         kj = float(k * (0.85 + 0.1 * j))
-        if dim == 1:
+        if sym:
+            pj, fj = [(P.Forward(strike=centre), lambda x: x - centre), (P.PayoffOnTheFly(lambda x: (x - centre) ** 2), lambda x: (x - centre) ** 2)][j]
+        elif dim == 1:
             pj, fj = _payoff(["forward", "call", "put"][j % 3], kj, ks)
         else:
             pj, fj = _payoff("call-vector", kj, [kj * 0.8, kj, kj * 1.25])
@@ -291,7 +308,8 @@ def run_case(case, R):
             S = np.cov(Xc.T, Yc, bias=True)
             Sx = np.atleast_2d(S[:-1, :-1])
             Sxy = S[:-1, -1]
-            cond = float(np.linalg.cond(Sx)) if np.min(np.abs(Sx)) >= 1e-8 else math.inf
+            # degenerate = a control without sample variance, or controls that are collinear in the sample (uncorrelated controls are not)
+            cond = float(np.linalg.cond(Sx)) if np.min(np.diag(Sx)) >= 1e-8 else math.inf
             if cond > 1e10 or N < len(cvs) + 2:
                 R.skip("degenerate-controls")
                 continue
@@ -302,7 +320,7 @@ def run_case(case, R):
             # rounding of the regression: eps * cond(Sigma_x) on the size of the adjustment b * (X - price)
             scale = abs(series.mean()) + np.std(Yc) + 1e-12 + 1e-7 * cond * float(np.sum(np.abs(b) * np.max(np.abs(Xc - pX[None, :]), axis=0)))
             if not (abs(pr[c] - series.mean()) <= 1e-8 * scale):
-                kind = f"{case['cv_prices']}-prices-{len(cvs)}-controls"
+                kind = f"{case['cv_prices']}-prices-{len(cvs)}-controls" + ("-uncorrelated-controls" if np.min(np.abs(Sx)) < 1e-10 else "")
                 R.violation(f"cv-price-not-regression-estimator-{kind}", f"component {c}: price with {len(cvs)} control(s) = {pr[c]!r}, "
                             f"mean(Y - b*(X - price_X)) with the sample regression coefficient b* = {b.tolist()} is {series.mean()!r} "
                             f"(raw mean {Yc.mean()!r}, control prices {pX.tolist()})", wit)
@@ -311,7 +329,7 @@ def run_case(case, R):
                 R.violation("cv-variance-larger-than-raw", f"component {c}: variance of the adjusted series {np.var(adj[:, c])!r} > raw {np.var(Yc)!r}", wit)
         # second run: control prices = sample means of the controls -> the price must be the raw mean
         well_conditioned = all(np.linalg.cond(np.atleast_2d(np.cov(X[:, :, c].T, bias=True))) < 1e10 and
-                               np.min(np.abs(np.atleast_2d(np.cov(X[:, :, c].T, bias=True)))) >= 1e-8 for c in range(dim))
+                               np.min(np.diag(np.atleast_2d(np.cov(X[:, :, c].T, bias=True)))) >= 1e-8 for c in range(dim))
         if not well_conditioned:
             R.skip("degenerate-controls")
             if N >= 3 and np.std(Y2[:, 0]) > 0:
